@@ -804,10 +804,11 @@ func (g *G) stmts(depth, n int, top bool) []*Node {
 		if !top && !g.O.NoHTML && !g.O.Formatter && g.inHeredoc == 0 && g.R.Chance(1, 14) {
 			html := g.R.Pick("<i>y</i>", "nested text", "c\nd\n", "<hr/>\r\n", "$z")
 			h := &Node{Kind: "StmtInlineHtml", Val: html, HasVal: true, Parts: []interface{}{tn(html), tn(g.R.Pick("<?php", "<?PHP")), tg("", GapNeedWS)}}
+			eat := g.closeTagNewline()
 			if endsInBrace(s) {
-				nop := &Node{Kind: "StmtNop", Parts: []interface{}{t("?>")}}
+				nop := &Node{Kind: "StmtNop", Parts: []interface{}{t("?>" + eat)}}
 				out = append(out, nop, h)
-			} else if closeTagAfterSemi(s) {
+			} else if g.closeTagAfterSemi(s, eat) {
 				// "; ?>" is ONE token (the statement's semicolon): no empty statement
 				out = append(out, h)
 			}
@@ -831,6 +832,10 @@ func (g *G) Program() *Node {
 		ss = append(ss, h)
 		ps = append(ps, h)
 	}
+	if !g.O.NoHTML && g.R.Chance(1, 10) {
+		// a shebang line at offset 0 is no node: it travels with the first token
+		ps = append([]interface{}{tn("#!/usr/bin/env php" + g.R.Pick("\n", "\n", "\r\n"))}, ps...)
+	}
 	open := g.R.Pick("<?php", "<?php", "<?PHP", "<?Php")
 	ps = append(ps, tn(open), tg("", GapNeedWS))
 	nStmts := g.R.Range(1, g.O.MaxStmts)
@@ -851,17 +856,21 @@ func (g *G) Program() *Node {
 		ss = append(ss, s)
 		ps = append(ps, s)
 		// close tag + inline HTML + open tag after a statement that ends in '}' or ':' (a definite StmtNop)
-		if !g.O.NoHTML && g.R.Chance(1, 10) && (endsInBrace(s) || closeTagAfterSemi(s)) {
-			html := g.R.Pick("<b>x</b>", "text", "a\nb\n", "<br/>\r\n", "$x {$y}", "'\"`")
+		eat := g.closeTagNewline()
+		if !g.O.NoHTML && g.R.Chance(1, 10) && (endsInBrace(s) || g.closeTagAfterSemi(s, eat)) {
+			// "" = nothing between the close tag and the next open tag: no inline HTML node at all
+			html := g.R.Pick("<b>x</b>", "text", "a\nb\n", "<br/>\r\n", "$x {$y}", "'\"`", "", "")
 			h := &Node{Kind: "StmtInlineHtml", Val: html, HasVal: true, Parts: []interface{}{tn(html)}}
 			if endsInBrace(s) {
-				nop := &Node{Kind: "StmtNop", Parts: []interface{}{t("?>")}}
+				nop := &Node{Kind: "StmtNop", Parts: []interface{}{t("?>" + eat)}}
 				ss = append(ss, nop)
 				ps = append(ps, nop)
 			}
-			ss = append(ss, h)
-			ps = append(ps, h)
-			if g.R.Chance(1, 3) {
+			if html != "" {
+				ss = append(ss, h)
+				ps = append(ps, h)
+			}
+			if html != "" && g.R.Chance(1, 3) {
 				// <?= expr ?> island
 				e := g.exprTop(2)
 				echo := &Node{Kind: "StmtEcho", Kids: []Kid{list("Exprs", []*Node{e})}, Parts: parts(tn("<?="), e, t("?>"))}
@@ -885,7 +894,29 @@ func (g *G) Program() *Node {
 
 // closeTagAfterSemi turns the statement's final ';' into the token "; ?>" (semicolon, optional whitespace
 // incl. line terminators, close tag — one token for the scanner, and no empty statement in the tree).
-func closeTagAfterSemi(n *Node) bool {
+// closeTagNewline: the single line terminator a close tag swallows (part of the close-tag token).
+func (g *G) closeTagNewline() string { return g.R.Pick("", "", "\n", "\r\n") }
+
+func (g *G) closeTagAfterSemi(n *Node, eat string) bool {
+	// the close tag alone may terminate the statement, unless a ';' stands in front of it: "; ?>" would be ONE
+	// semicolon token (an empty statement written ';' behind another statement's ';' would vanish)
+	text := ";" + OptWSNL + "?>" + eat
+	toks := n.Tokens()
+	last := len(toks) - 1
+	for last >= 0 && toks[last].S == "" {
+		last--
+	}
+	prev := last - 1
+	for prev >= 0 && toks[prev].S == "" {
+		prev--
+	}
+	if prev >= 0 && toks[prev].S != ";" && !strings.HasSuffix(toks[prev].S, "?>") && g.R.Chance(1, 3) {
+		text = "?>" + eat
+	}
+	return setFinalSemi(n, text)
+}
+
+func setFinalSemi(n *Node, text string) bool {
 	for i := len(n.Parts) - 1; i >= 0; i-- {
 		switch v := n.Parts[i].(type) {
 		case Tok:
@@ -896,7 +927,7 @@ func closeTagAfterSemi(n *Node) bool {
 				continue
 			}
 			if v.S == ";" && !v.Str {
-				v.S = ";" + OptWSNL + "?>"
+				v.S = text
 				n.Parts[i] = v
 				return true
 			}
@@ -905,7 +936,7 @@ func closeTagAfterSemi(n *Node) bool {
 			if v == nil {
 				continue
 			}
-			return closeTagAfterSemi(v)
+			return setFinalSemi(v, text)
 		default:
 			return false
 		}
